@@ -40,7 +40,12 @@ RULE = ('waveform recipes (nesting <= 4) over all classes (table hold/linear/jum
         'constant_value, unary plus, output arrays of the wrong length / empty time arrays).  Round 5 families: the same rational times handed over as '
         'int64 / int32 / int8 / uint8 / uint16 / float32 / float16 arrays for 15 recipe kinds (12 report a constant that is neither '
         'an integer nor a single precision number), with and without a supplied float64 result array; equality pairs that differ '
-        'in exactly one slot for every class.  A rejected case is filed under a known finding only if Coq confirms that the '
+        'in exactly one slot for every class.  Round 6 family: expressions that ARE their argument (FunctionWaveform t, t*1, t+0, '
+        't/1, 1*t, t**1; transformation values spelled t) and 7 other spellings of polynomials, bare and below 30 parents (functors, '
+        'multi-channel, subset, transformations, arithmetic, sequence, repetition, reversal), on off / end grids and in a '
+        'render-style history (one writeable time array, every channel in turn, first channel again); on every sample case and '
+        'history call the caller\'s time array must keep its content and its writeable flag and the answer must not share memory '
+        'with it.  A rejected case is filed under a known finding only if Coq confirms that the '
         'implementation equals the model of the unchanged code on it and the specification accepts everything outside the '
         'points the finding is about (Corr.v excused).  Decimal stream (kind dec): durations k/10, k/3, k/5, k/6, k/7, k/100 '
         '(exact TimeType), repetitions 3..10, grid on every junction as correctly rounded doubles, tolerance 2^-30.  '
@@ -61,13 +66,15 @@ ASSUMPTIONS = [
     'repetition counts are small positive integers in generated cases (the theorems are for all counts)',
 ]
 MANIFEST = {
-    'level_text': 'Proof: 89 unbounded theorems over an executable Coq model of waveforms.py (clause map in notes/C08.md). Proved in '
+    'level_text': 'Proof: 91 unbounded theorems over an executable Coq model of waveforms.py (clause map in notes/C08.md). Proved in '
                   'full: vectorised sampler = pointwise meaning on every sorted grid, independent of the other times (all 11 '
                   'classes); __eq__ of the model => identical behaviour; reversed() / double reversal laws on the pointwise reading. '
                   'Proved under executable guards: constant_value sound on [0,duration) for all classes and on [0,duration] '
                   'without sequence/repetition nodes (refuted at t=duration for sequence/repetition); totality (REFUTED on the unchanged '
-                  'code: sequence/repetition at t=duration, reversal around them, chained parallel+linear KeyError; the guard '
-                  'excludes reversal around sequence/repetition altogether); every optimising constructor samples like the plain '
+                  'code: sequence/repetition at t=duration, reversal around them on their junctions, chained parallel+linear KeyError; '
+                  'proved - round 6 - for all classes at every time of [0,duration) that the executable junction guard badT does '
+                  'not exclude, reversal around sequence/repetition included; the older guard that forbids such reversals '
+                  'altogether is proved to be a special case); every optimising constructor samples like the plain '
                   'composite and returns a well-formed waveform, single steps and the COMPOSED statement for EVERY construction '
                   'recipe on [0,duration) (guards: constructor shape of transformations, no KeyError in the plain composite, time '
                   'guard = local time 0 of a reversal); get_subset_for_channels for all classes (same time guard); history '
@@ -80,7 +87,8 @@ MANIFEST = {
                   'The model (incl. a state machine for the TransformingWaveform cache, with the state a failing call leaves '
                   'behind) is tied to /repo by an exact correspondence check and an independent denotation on generated waveform '
                   'trees (families: sparse grids, shared objects, re-allocated time arrays, reused output arrays, coinciding channel '
-                  'names, exclusive-channel subsets, integer / single precision time arrays, one-slot equality pairs) and a '
+                  'names, exclusive-channel subsets, integer / single precision time arrays, one-slot equality pairs, expressions that '
+                  'return their argument + caller\'s time array neither written nor aliased) and a '
                   'decimal-duration stream under tolerance 2^-30.',
     'level_note': 'Trusted: Coq kernel, numpy/sympy semantics as modelled, harness (py_build, printers), Python hash. Float '
                   'rounding not modelled (dyadic inputs exact; decimal stream under a declared tolerance, nothing excused there). '
